@@ -80,6 +80,10 @@ def render(shape, annotated):
 
 def program(shape, annotated, where):
     sig, ret, body, pos, kws = render(shape, annotated)
+    if where == "closure":
+        # every parameter (star parameters included) is read by a nested function, i.e. it is a
+        # captured variable of f and must be seeded into f's environment at entry
+        return "dv = 100\ndef f(%s)%s:\n    def inner():\n        %s\n    return inner()\n" % (sig, ret, body)
     if where == "module":
         return "dv = 100\ndef f(%s)%s:\n    %s\ndv = 200\n" % (sig, ret, body)
     if where == "function":
@@ -198,6 +202,7 @@ def _shape_shard(item):
     idx, nshards, all8 = item
     part = new_part()
     cases = [(sh, an, wh) for sh in shapes() for an in (False, True) for wh in ("module", "function", "class")]
+    cases += [(sh, False, "closure") for sh in shapes()]
     for k in range(idx, len(cases), nshards):
         if len(part["violations"]) >= 3:
             break
@@ -223,6 +228,14 @@ TEMPLATES = [
     "class K:\n    n = 3\n    def m(self, a=n, *, c=n + 1):\n        return (a, c)\n    n = 4\nL('r', K().m(), K().m(1, c=2))",
     # lambda defaults and binding
     "n = 2\ng = lambda a, b=n, /, c=n + 1, *r, k, j=n * 5, **kw: (a, b, c, r, k, j, sorted(kw))\nn = 9\nL('r', g(1, k=0), g(1, 2, 3, 4, 5, k=6, j=7, z=8))",
+    # default expressions of every syntactic kind, in positional and keyword-only position
+    "dv = 3\ndef f(a=(w0 := dv + 1), b=(lambda: dv), c=(1, 2), d=dv if dv else 0, /, e=[*range(2)], *, k=(w1 := dv * 2), j=(lambda q=dv: q), t=(dv, (dv,)), u={dv: dv}, v=not dv, **rest):\n    return (a, b(), c, d, e, k, j(), t, u, v, sorted(rest))\nL('r', f(), f(9, k=8, zz=1), w0, w1)",
+    "g = lambda a=(w0 := 5), *r, k=(w1 := 6), j=(yes if (yes := 1) else 0): (a, r, k, j)\nL('r', g(), g(1, 2, k=3), w0, w1)",
+    # search loop: break / else: return / fall through to a return behind the loop
+    "def find(xs, want):\n    for x in xs:\n        if x == want:\n            break\n    else:\n        return None\n    return ('found', x)\nL('r', find([1, 2, 3], 2), find([1, 2], 9), find([], 1))",
+    "def find(xs, want):\n    i = 0\n    while i < len(xs):\n        if xs[i] == want:\n            break\n        i += 1\n    else:\n        return -1\n    return i\nL('r', find([1, 2, 3], 3), find([1], 5))",
+    # star parameters captured by a nested function and rebound
+    "def f(*args, **kw):\n    def g():\n        nonlocal args, kw\n        args = args + (1,)\n        kw = dict(kw, z=0)\n        return len(args)\n    n = g()\n    return (n, args, sorted(kw))\nL('r', f(), f(5, 6, a=1))",
     # recursion and closures keep binding
     "def fact(n, acc=1):\n    return acc if n <= 1 else fact(n - 1, acc * n)\nL('r', fact(5), fact(n=3), fact(4, acc=2))",
     "def deco(fn):\n    def w(*a, **k):\n        return fn(*a, **k)\n    return w\nclass K:\n    @deco\n    def m(self, x, /, y=2, *, z=3):\n        return (x, y, z)\n    @staticmethod\n    @deco\n    def s(x=1):\n        return x\n    @classmethod\n    def c(cls, *a, **k):\n        return (cls.__name__, a, sorted(k))\nL('r', K().m(1), K().m(1, 5, z=6), K.s(), K().s(4), K.c(1, q=2), K().c())",
